@@ -142,6 +142,14 @@ def region(body, sbb, target):
 
 
 def corpus_body(F, self_name, trait=None, method=None, name=None, self_adt=None):
+    m = F.manifest["types"].get(self_name) or {}
+    if (m.get("def") or {}).get("generic") and trait and method:
+        # an instance of a generic definition: its monomorphic body (constants evaluated, callees resolved) as reached from the corpus roots
+        pre = "<flatty_corpus::%s as %s>::%s" % (m["rust"], trait, method)
+        rs = [b for b in F.mono.values() if b["id"] == pre and b["defkind"] != "Closure"]
+        if len(rs) != 1:
+            raise AnchorLost("generated %s::%s for the generic instance %s: expected 1 monomorphic body, found %d" % (trait, method, self_name, len(rs)))
+        return rs[0]
     kw = dict(krate="flatty_corpus")
     if trait:
         kw["trait"] = trait
@@ -156,6 +164,24 @@ def corpus_body(F, self_name, trait=None, method=None, name=None, self_adt=None)
     if len(rs) != 1:
         raise AnchorLost("generated %s::%s for %s: expected 1 body, found %d" % (trait, method or name, self_name, len(rs)))
     return rs[0]
+
+
+def base_name(nm, d):
+    """name the macro derives helper types from (<Name>Tag, <Name>Init ...): the generic definition's for an instance"""
+    return d.get("generic") or nm
+
+
+def const_path(nm, m, d):
+    """path under which an inherent constant of the type is printed: `flatty_corpus::Name` or `flatty_corpus::Name::<args>`"""
+    if d.get("generic"):
+        g, args = m["rust"].split("<", 1)
+        return "flatty_corpus::%s::<%s" % (g, args)
+    return "flatty_corpus::" + nm
+
+
+def closures_in(F, b):
+    src = F.mono.values() if b.get("mono") else F.poly(krate="flatty_corpus")
+    return [bj for bj in src if bj["id"].startswith(b["id"] + "::{closure")]
 
 
 def is_tag_of_bytes(x):
@@ -187,12 +213,22 @@ def generated_rules(F, R, which):
     n = 0
     for nm, m in sorted(man.items()):
         d = m.get("def")
-        if not d or d.get("generic"):
-            continue   # instances of generic definitions: their generated bodies are polymorphic; decided are their constants / layouts (E1)
+        if not d:
+            continue
         ty = F.tymarks.get("__ty_" + nm)
         cs = F.consts.get(ty, {})
         n += 1
         try:
+            if d.get("generic"):
+                # instances of generic definitions: the shape rules run on the monomorphic bodies reached from the instance's roots
+                # (validator, size, view pointers); accessors / initialisers / default are pinned on the non-generic shapes only
+                if "validate" in which:
+                    validate_rules(F, R, nm, d, m, cs)
+                if "size" in which:
+                    size_rules(F, R, nm, d, m, cs)
+                if "ptr" in which and not d["sized"]:
+                    ptr_rules(F, R, nm, d, m, cs)
+                continue
             if "validate" in which:
                 validate_rules(F, R, nm, d, m, cs)
             if "size" in which:
@@ -248,7 +284,7 @@ def validate_rules(F, R, nm, d, m, cs):
         clike_tag_rule(F, R, body, b, fn, nm, len(d["variants"]), d)
         return
     do = cs.get("DATA_OFFSET")
-    tagname = "flatty_corpus::%sTag" % nm
+    tagname = "flatty_corpus::%sTag" % base_name(nm, d)
     tv = find_calls(body, "FlatValidate::validate_unchecked")
     tv = [(bb, t) for bb, t in tv if t["call"]["args"] and t["call"]["args"][0] == tagname]
     fb = [(bb, t) for bb, t in find_calls(body, "FlatUnsized::from_bytes_unchecked") if t["call"]["args"][0] == tagname]
@@ -333,7 +369,7 @@ def validate_rules(F, R, nm, d, m, cs):
                 if not (n_ and n_[0] == "Lt"):
                     continue
                 l, r_ = canon(n_[1]), canon(n_[2])
-                if l == "core::slice::<impl [T]>::len(%s)" % want_data and r_ == "flatty_corpus::%s::DATA_MIN_SIZES[%d]" % (nm, i):
+                if l == "core::slice::<impl [T]>::len(%s)" % want_data and r_ == "%s::DATA_MIN_SIZES[%d]" % (const_path(nm, m, d), i):
                     ft = [b_ for v, b_ in st["targets"] if int(v) == 0]
                     if not ft:
                         continue
@@ -350,7 +386,7 @@ def validate_rules(F, R, nm, d, m, cs):
              "%s: before variant i is walked, len(payload) < DATA_MIN_SIZES[i] (i = position of the variant) is refused with InsufficientSize at DATA_OFFSET%s" % (nm, gate_why),
              where=b["span"])
     # error offset
-    clos = [bj for bj in F.poly(krate="flatty_corpus") if bj["id"].startswith(b["id"] + "::{closure")]
+    clos = closures_in(F, b)
     offs = []
     for cj in clos:
         offs += the_return(Body(cj))
@@ -362,7 +398,7 @@ def validate_rules(F, R, nm, d, m, cs):
 
 def clike_tag_rule(F, R, body, b, fn, nm, nvars, d):
     """accept-set of the raw tag = {0..n-1} = the discriminants rustc assigned."""
-    lay = F.layouts.get("flatty_corpus::" + nm) or F.layouts.get("flatty_corpus::%sTag" % nm)
+    lay = F.layouts.get(F.tymarks.get("__ty_" + nm) or ("flatty_corpus::" + nm)) or F.layouts.get("flatty_corpus::%sTag" % base_name(nm, d))
     discrs = sorted(v["discr"] for v in lay["variants"]) if lay else None
     acc = accept_set(body)
     R.ob("V2.tag-accept-set", fn, "raw-tag", acc is not None and discrs is not None and acc == discrs,
